@@ -147,5 +147,29 @@ def run(ctx):
             raise FrameworkError("model: bucket algorithm differs from sum s_i P_i on " + l[:80])
 
 
+    # the model of the whole MultiExp (window / split choice, slices, completion orders) == specification
+    ml = [l.replace("msmx", "msmxmodel", 1) for l in lines
+          if l.startswith("msmx ") and l.split()[4] != "-" and l.split()[4].count(",") == l.split()[5].count(",")
+          and l.split()[4].count(",") < 140]
+    # spread over the NbTasks values (the number of splits depends on it), larger inputs first
+    bynb = {}
+    for l in sorted(ml, key=lambda l: -l.split()[4].count(",")):
+        bynb.setdefault(l.split()[2], []).append(l)
+    ml, k = [], 0
+    while len(ml) < (40 if ctx.quick() else 400) and any(bynb.values()):
+        for nbv in sorted(bynb):
+            if bynb[nbv]:
+                ml.append(bynb[nbv].pop(0))
+    out = run_lines(ctx.model(), ml, env=model_env())
+    chosen = {}
+    for l, o in zip(ml, out):
+        if not o.startswith("same"):
+            from vlib import FrameworkError
+            raise FrameworkError("model: MultiExp model differs from sum s_i P_i on " + l[:80] + " -> " + o[:60])
+        chosen[o[5:]] = chosen.get(o[5:], 0) + 1
+    ctx.extra["multiexp_model_vs_spec"] = "model MultiExp == sum s_i P_i on %d cases; (window, splits, points per split) chosen: %s" % (
+        len(ml), ", ".join("%s x%d" % kv for kv in sorted(chosen.items(), key=lambda kv: (-int(kv[0].split("splits=")[1].split()[0]), kv[0]))[:30]))
+
+
 def replay(ctx, path):
     std_replay(ctx, path)
